@@ -162,22 +162,27 @@ def run_c09(ck):
 def run_c02(ck):
     quick = ck.tier == "quick"
     run_mc(ck, "MC_Resolve_quick.cfg" if quick else "MC_Resolve_thorough.cfg", workers=8 if quick else 14)
-    progs = program_sources(ck.seed + 1000, 80 if quick else 1500, corpus_limit=100 if quick else None)
-    budgets = [1, 2, 3, 5, 10, 30] if quick else list(range(1, 31))
-    jobs, names = [], []
-    for name, job in progs:
-        for b in budgets:
-            for (os_, om) in (SWITCHES if not quick else [(True, True), (False, False)]):
-                jobs.append(with_opts(job, b, os_, om))
-                names.append(name)
-    results = common.run_jobs(jobs, ck.wd + "/jobs")
-    ck.evaluations += len(jobs)
-    resolver_traces(ck, names, jobs, results, sample_every=200)
+    progs = program_sources(ck.seed + 1000, 80 if quick else 700, corpus_limit=100 if quick else None)
+    budgets = [1, 2, 3, 5, 10, 30] if quick else [1, 2, 3, 4, 5, 6, 7, 8, 10, 11, 12, 15, 20, 30]
+    # in chunks: a run's hook events are large, and the thorough tier has hundreds of thousands of runs
+    CH = 150
+    for c0 in range(0, len(progs), CH):
+        jobs, names = [], []
+        for name, job in progs[c0:c0 + CH]:
+            for b in budgets:
+                for (os_, om) in (SWITCHES if not quick else [(True, True), (False, False)]):
+                    jobs.append(with_opts(job, b, os_, om))
+                    names.append(name)
+        results = common.run_jobs(jobs, ck.wd + "/jobs")
+        ck.evaluations += len(jobs)
+        resolver_traces(ck, names, jobs, results, sample_every=200)
+        del results, jobs
     # semantic level: the claimed final state is certified against the rules (Asm.tla Certificate)
     from . import asm as asmprops
-    asmprops.certificates(ck, ck.seed + 4000, 300 if quick else 3000,
-                          [1, 2, 3, 4, 6, 10, 30] if quick else list(range(1, 31)),
-                          [(True, True), (False, False)] if quick else SWITCHES)
+    for k in range(1 if quick else 6):
+        asmprops.certificates(ck, ck.seed + 4000 + k, 300 if quick else 500,
+                              [1, 2, 3, 4, 6, 10, 30] if quick else [1, 2, 3, 4, 5, 6, 8, 10, 12, 30],
+                              [(True, True), (False, False)] if quick else SWITCHES)
     ck.assumptions += [
         "semantic certificate (Asm.tla Certificate) on generated abstract programs with value-dependent sizes: typed-width families, assert-selected forms, pc-relative forms, signed forms",
         "protocol-level certificate: the final pass is a last pass in which every item reported Resolved, with label values and cursors re-derived by the spec; "
@@ -222,31 +227,34 @@ KNOWN_INPUTS_C08 = [
 def run_c08(ck):
     quick = ck.tier == "quick"
     run_mc(ck, "MC_Resolve_quick.cfg" if quick else "MC_Resolve_thorough.cfg", workers=8 if quick else 14)
-    progs = KNOWN_INPUTS_C08 + program_sources(ck.seed + 2000, 100 if quick else 3000, corpus_limit=None, ncasc=400 if quick else 4000)
+    progs = KNOWN_INPUTS_C08 + program_sources(ck.seed + 2000, 100 if quick else 2000, corpus_limit=None, ncasc=400 if quick else 3000)
     budgets = [1, 2, 3, 10] if quick else [1, 2, 3, 4, 5, 10, 11, 30]
-    jobs, names = [], []
-    for name, job in progs:
-        for b in budgets:
-            for (os_, om) in SWITCHES:
-                jobs.append(with_opts(job, b, os_, om))
-                names.append(name)
-    results = common.run_jobs(jobs, ck.wd + "/jobs")
-    ck.evaluations += len(jobs)
     events = []
     per = len(budgets) * 4
-    for pi, (name, job) in enumerate(progs):
-        sweeps = []
-        for bi, b in enumerate(budgets):
-            runs = []
-            for si in range(4):
-                r = results[pi * per + bi * 4 + si]
-                runs.append({"budget": b, "ok": ok_of(r), "iters": r.get("iters") or 0, "out": digest(r)})
-            sweeps.append(runs)
-            if runs[0]["ok"]:
-                ck.nontrivial_add(name)
-        events.append({"ev": "switches", "case": pi, "program": name, "sweeps": sweeps})
-        if pi % 60 == 0:
-            ck.sample({"program": name, "budget": budgets[1], "runs": sweeps[1]}, limit=6)
+    CH = 400
+    for c0 in range(0, len(progs), CH):
+        jobs = []
+        for name, job in progs[c0:c0 + CH]:
+            for b in budgets:
+                for (os_, om) in SWITCHES:
+                    jobs.append(with_opts(job, b, os_, om))
+        results = common.run_jobs(jobs, ck.wd + "/jobs")
+        ck.evaluations += len(jobs)
+        for k, (name, job) in enumerate(progs[c0:c0 + CH]):
+            pi = c0 + k
+            sweeps = []
+            for bi, b in enumerate(budgets):
+                runs = []
+                for si in range(4):
+                    r = results[k * per + bi * 4 + si]
+                    runs.append({"budget": b, "ok": ok_of(r), "iters": r.get("iters") or 0, "out": digest(r)})
+                sweeps.append(runs)
+                if runs[0]["ok"]:
+                    ck.nontrivial_add(name)
+            events.append({"ev": "switches", "case": pi, "program": name, "sweeps": sweeps})
+            if pi % 60 == 0:
+                ck.sample({"program": name, "budget": budgets[1], "runs": sweeps[1]}, limit=6)
+        del results, jobs
 
     for case in sorted(tv.judge(ck, "TraceOutcomes", "TraceOutcomes.cfg", events, ck.wd, tag="switches")):
         bad = events[case]
